@@ -127,8 +127,9 @@ pgt_s390x(addrxlat_step_t *step)
 	}
 
 	if (step->remain >= 3) {
+		/* table offset and length are in quarters of the table */
 		unsigned pgidx = step->idx[step->remain - 1] >>
-			(pf->fieldsz[step->remain - 1] - pf->fieldsz[0]);
+			(pf->fieldsz[step->remain - 1] - 2);
 		if (pgidx < RSTE_TF(pte) || pgidx > RSTE_TL(pte))
 			return !step->ctx->noerr.notpresent
 				? set_error(step->ctx, ADDRXLAT_ERR_NOTPRESENT,
